@@ -1023,3 +1023,70 @@ def rule_G6_no_extra_pruning(ctx, typer):
         else:
             ctx.inst("G6", f, g.cond, "every matching child is recorded or descended into")
     return n
+
+
+# ---------------------------------------------------------------------- R8
+def rule_R8_split_unfiltered(ctx, typer):
+    """the components come from `path.split(<the node's separator>)` as they are: in the start-up code the component
+    list is only shortened at the front (pop(0) / slicing) for the root component — never filtered or rebuilt, so empty
+    and '.' components keep their positions (a doubled leading separator stays an error)"""
+    from .common import resolve_local
+    cls, funcs = resolver_funcs(ctx.p)
+    f = funcs.get("__start")
+    if f is None:
+        raise AnalysisError("anchor Resolver.__start not found")
+    n = 0
+    splits = [c for c in walk_own(f.node) if isinstance(c, ast.Call) and isinstance(c.func, ast.Attribute) and c.func.attr == "split"]
+    if len(splits) != 1:
+        ctx.viol("R8", f, f.node, "the path is not split exactly once into its components", construct="__start: %d split calls" % len(splits))
+        return 1
+    sp = splits[0]
+    pathp = [q for q in f.posparams if q not in (f.selfname,)][1] if len(f.posparams) > 2 else "path"
+    n += 1
+    ok_split = norm(sp.func.value) == pathp and len(sp.args) == 1
+    if ok_split:
+        sep = resolve_local(f, sp.args[0])
+        ok_split = isinstance(sep, ast.Attribute) and sep.attr == "separator"
+    if ok_split:
+        ctx.inst("R8", f, sp, "components = path.split(node.separator)")
+    else:
+        ctx.viol("R8", f, sp, "the path is not split on the node's own separator: `%s`" % norm(sp))
+    var = None
+    for node in walk_own(f.node):
+        if isinstance(node, ast.Assign) and node.value is sp and isinstance(node.targets[0], ast.Name):
+            var = node.targets[0].id
+    if var is None:
+        n += 1
+        holder = next((x for x in walk_own(f.node) if isinstance(x, (ast.ListComp, ast.GeneratorExp, ast.Call)) and x is not sp
+                       and any(y is sp for y in ast.walk(x))), sp)
+        ctx.viol("R8", f, holder, "the split components are processed before they are used (`%s`): empty / '.' components lose their "
+                 "position, so malformed absolute paths resolve instead of failing" % " ".join(norm(holder).split())[:90])
+        return n
+    for node in walk_own(f.node):
+        bad = None
+        if isinstance(node, ast.Assign) and any(isinstance(t, ast.Name) and t.id == var for t in node.targets) and node.value is not sp:
+            v = node.value
+            if not (isinstance(v, ast.Subscript) and isinstance(v.slice, ast.Slice) and norm(v.value) == var):
+                bad = node
+        if isinstance(node, ast.Call) and isinstance(node.func, ast.Attribute) and norm(node.func.value) == var and node.func.attr in T.MUTATING_METHODS:
+            if not (node.func.attr == "pop" and len(node.args) == 1 and isinstance(node.args[0], ast.Constant) and node.args[0].value == 0):
+                bad = node
+        if isinstance(node, (ast.ListComp, ast.GeneratorExp)) and any(norm(g.iter) == var for g in node.generators):
+            bad = node
+        if isinstance(node, ast.Call) and isinstance(node.func, ast.Name) and node.func.id in ("filter", "map") and any(norm(a) == var for a in node.args):
+            bad = node
+        if bad is not None:
+            n += 1
+            ctx.viol("R8", f, bad, "the component list is rebuilt or filtered in the start-up code (`%s`): empty / '.' components lose their "
+                     "position, so malformed absolute paths resolve instead of failing" % " ".join(norm(bad).split())[:80])
+    rets = [r for r in walk_own(f.node) if isinstance(r, ast.Return) and isinstance(r.value, ast.Tuple) and len(r.value.elts) == 2]
+    for r in rets:
+        e = r.value.elts[1]
+        if isinstance(e, ast.Constant) and e.value is None:
+            continue
+        n += 1
+        if (isinstance(e, ast.Name) and e.id == var) or (isinstance(e, ast.Subscript) and isinstance(e.slice, ast.Slice) and norm(e.value) == var):
+            ctx.inst("R8", f, r, "returns the split components (front-shortened only)")
+        else:
+            ctx.viol("R8", f, r, "the components returned are `%s`, not the split list" % norm(e))
+    return n
